@@ -257,6 +257,31 @@ def gen_case(rng, tier):
             for k in [k for k in m["reward"] if k.startswith("%d,%d," % (s, a))]:
                 m["reward"].pop(k)
         m["actions"][s] = []
+    # boundary of the implicit-absorbing rule (exact `== 1` / `== 0` tests in absorbing_state_vec):
+    # a NON-absorbing state whose every action self-loops with probability 1 - 2^-k (rest elsewhere, no rewards),
+    # or self-loops with probability exactly 1 but earns a reward of +-2^-30 on one action.  All dyadic: floats exact.
+    m_boundary = None
+    if qv is None and rng.random() < .15:
+        cand = [s for s in range(n) if m["actions"][s] and not m["absorbing"][s]]
+        pref = [s for s in cand if s in [x for x, p in m["init"] if F(p) > 0]]
+        if cand:
+            s = rng.choice(pref or cand)
+            kind = rng.choice(["prob", "prob", "reward"]) if n >= 2 else "reward"
+            for k in [k for k in m["reward"] if k.startswith("%d," % s)]:
+                m["reward"].pop(k)
+            if kind == "prob":
+                for a in set(m["actions"][s]):
+                    eps = F(1, 2 ** rng.choice([10, 20, 30]))
+                    other = rng.choice([x for x in range(n) if x != s])
+                    row = [[s, str(1 - eps)], [other, str(eps)]]
+                    rng.shuffle(row)
+                    m["trans"]["%d,%d" % (s, a)] = row
+            else:
+                for a in set(m["actions"][s]):
+                    m["trans"]["%d,%d" % (s, a)] = [[s, "1"]]
+                a = rng.choice(m["actions"][s])
+                m["reward"]["%d,%d,%d" % (s, a, s)] = str(rng.choice([1, -1]) * F(1, 2 ** 30))
+            m_boundary = kind
     # actions(s) listing an action twice (assignment, not accumulation, fills the arrays)
     if not uniform and rng.random() < .08:
         cand = [s for s in range(n) if m["actions"][s]]
@@ -267,7 +292,7 @@ def gen_case(rng, tier):
     skind = rng.choice(["int", "int", "str", "tup", "tup_is", "fd", "mixed", "mixed", "mixed"])
     akind = rng.choice(["int", "str", "str", "tup", "fd", "mixed", "mixed"])
     case = {"mdp": m, "slabels": gen_labels(rng, n, skind), "alabels": gen_labels(rng, nA, akind),
-            "skind": skind, "akind": akind, "abs_out": abs_out,
+            "skind": skind, "akind": akind, "abs_out": abs_out, "boundary": m_boundary,
             "explicit_states": None, "explicit_actions": None, "qv": qv,
             "cutoffs": sorted(set(rng.randint(0, n + 1) for _ in range(rng.randint(1, 3)))),
             "vi": {"max_iterations": 60, "max_residual": "1/100000"}}
@@ -787,6 +812,7 @@ def run(ctx):
              "abs_out": case["abs_out"], "quick_variant": bool(case["qv"]),
              "states_sortable": bool(v[1][2]), "actions_sortable": bool(v[1][5]),
              "dead_end": any(len(a) == 0 for a in case["mdp"]["actions"]),
+             "boundary_prob": case.get("boundary") == "prob", "boundary_reward": case.get("boundary") == "reward",
              "repeated_action": any(len(set(a)) != len(a) for a in case["mdp"]["actions"]),
              "skind_" + case["skind"]: True, "akind_" + case["akind"]: True}
         f.update({k: x for k, x in gen_mdp.features(case["mdp"]).items() if isinstance(x, bool)})
@@ -796,7 +822,7 @@ def run(ctx):
         "evaluations": len(idx),
         "distinct_nontrivial": len(distinct),
         "rule": "functional MDPs from harness/gen_mdp.py (1..%d states, 1..3 actions, k/8 probabilities, zero-probability entries in "
-                "next-state and initial distributions, rewards on zero-probability successors, explicit/implicit absorbing states, dead ends, actions listed twice, "
+                "next-state and initial distributions, rewards on zero-probability successors, explicit/implicit absorbing states, near-absorbing states (self-loop probability 1 - 2^-k, k in {10,20,30}, or reward +-2^-30 on a certain self-loop), dead ends, actions listed twice, "
                 "gamma in {1/2..19/20, 1}) relabelled with ints / strings / int tuples / (int,str) tuples / frozendicts / nested mixed tuples "
                 "(sortable and unsortable sets), explicit (shuffled, with unreachable states) or inferred state and action lists, 1-3 "
                 "max_states cut-offs in 0..n+1, constant/deterministic QuickMDP argument variants; %s; distinct = structural hash of (MDP, labels, "
